@@ -26,7 +26,7 @@ from unittest import mock
 
 import core
 
-sys.path.insert(0, '/repo')
+sys.path.insert(0, os.environ.get('VERIF_REPO', '/repo'))
 
 READY = True
 MANIFEST = dict(
